@@ -837,6 +837,20 @@ func (e *Env) evalCall(n *ast.CallExpr) Val {
 		// hget(h, key): h.Get(key)
 		h, k := arg(0), arg(1)
 		return e.x.headerGet(e.st, h, k.T())
+	case "sprintf":
+		// sprintf(format, a, b...): the value fmt.Sprintf yields for these (scalar) arguments
+		var args []*T
+		for i := range n.Args {
+			v := arg(i)
+			if i == 0 {
+				args = append(args, v.T())
+				continue
+			}
+			tag := e.x.prog.typeTag(v.Typ)
+			e.x.prog.noteTagSort(tag, v.T().S)
+			args = append(args, App(fmt.Sprintf("mkiface_%d", tag), SInt, v.T()))
+		}
+		return strVal(App(fmt.Sprintf("sprintf_%d", len(n.Args)-1), SStr, args...))
 	case "ifaceStr":
 		// ifaceStr(x): the string boxed in interface value x
 		tag := e.x.prog.typeTag(types.Typ[types.String])
